@@ -8,7 +8,7 @@
 (* applies).  MustFactor(c, at): a positive verdict has to come with both  *)
 (* primes recorded.                                                        *)
 (***************************************************************************)
-EXTENDS Naturals, Integers, Sequences, FiniteSets, TLC
+EXTENDS Naturals, Integers, Sequences, FiniteSets, TLC, Roca
 DefaultPatternSizes == {1, 3, 5, 7, 9, 11, 13, 15, 31, 63, 127, 255, 511, 8, 16, 32, 64, 128, 256}
 Fam(at) == IF "family" \in DOMAIN at THEN at.family ELSE "none"
 
@@ -29,8 +29,27 @@ CritLhw(at) == IF at.h1 <= 32 /\ at.h2 <= 32 THEN "must" ELSE "none"
 \* p-1 and q-1 share a 2^20-smooth factor >= 2^60 and one of them is smooth enough
 CritPm1(at) == IF at.shared_log2 >= 60 /\ (at.smooth_p \/ at.smooth_q) THEN "must" ELSE "none"
 
+(* ---------- C06: closed-form criteria that flag EXACTLY ---------------------- *)
+\* family "exact_rsa": bits, e (65537 | 0 for anything else), res39, res48, in_openssl_list, keypair_covered
+CritExactRsa(c, at) ==
+  CASE c = "CheckSizes" -> IF at.bits < 2048 THEN "must" ELSE "mustnot"
+    [] c = "CheckExponents" -> IF at.e # 65537 THEN "must" ELSE "mustnot"
+    [] c = "CheckROCA" -> IF RocaWeak(at.res39) THEN "must" ELSE "mustnot"
+    [] c = "CheckROCAVariant" -> IF ~VariantDecided(at.res48) THEN "none"
+                                 ELSE IF VariantWeak(at.res39, at.res48) THEN "must" ELSE "mustnot"
+    [] c = "CheckOpensslDenylist" /\ at.openssl # "unknown" -> IF at.openssl = "listed" THEN "must" ELSE "mustnot"
+    [] c = "CheckKeypairDenylist" /\ at.keypair = "covered" -> "must"
+    [] OTHER -> "none"
+\* family "exact_ec": known (curve has parameters), on_curve, in_range, order_bits
+CritExactEc(c, at) ==
+  CASE c = "CheckValidECKey" -> IF ~at.known \/ ~at.on_curve \/ ~at.in_range THEN "must" ELSE "mustnot"
+    [] c = "CheckWeakCurve" /\ at.known -> IF at.order_bits < 224 THEN "must" ELSE "mustnot"
+    [] OTHER -> "none"
+
 Criterion(c, at, par) ==
-  CASE Fam(at) = "fermat" /\ c = "CheckFermat" -> CritFermat(at, par)
+  CASE Fam(at) = "exact_rsa" -> CritExactRsa(c, at)
+    [] Fam(at) = "exact_ec" -> CritExactEc(c, at)
+    [] Fam(at) = "fermat" /\ c = "CheckFermat" -> CritFermat(at, par)
     [] Fam(at) = "upperdiff" /\ c = "CheckSmallUpperDifferences" -> CritUpperDiff(at)
     [] Fam(at) = "unseeded" /\ c = "CheckUnseededRand" -> CritUnseeded(at)
     [] Fam(at) = "pattern" /\ c = "CheckBitPatterns" -> CritPattern(at)
@@ -41,6 +60,7 @@ Criterion(c, at, par) ==
     [] OTHER -> "none"
 \* checks whose positive verdict on their family must record both primes
 MustFactor(c, at) ==
+  \/ Fam(at) = "exact_rsa" /\ c = "CheckKeypairDenylist" /\ at.keypair = "covered"
   \/ Fam(at) = "fermat" /\ c = "CheckFermat"
   \/ Fam(at) = "upperdiff" /\ c = "CheckSmallUpperDifferences"
   \/ Fam(at) = "unseeded" /\ c = "CheckUnseededRand"
